@@ -135,7 +135,10 @@ def make_config(rng, idx, tier):
     routes = []
     for r in ROUTES:
         body, owner = rdefs[r]
-        lines.append('"%s" {' % r)
+        # channel type: bare (= inbound), or the explicit kinds - outbound (deliver only) and internal (pull only) routes can be fed by
+        # publish alone, and their own max_body / max_headers bind publish like any other route's
+        chan = rng.choice(["", "", "inbound", "outbound" if body.startswith("deliver") else "internal"])
+        lines.append(('%s "%s" {' % (chan, r)).strip())
         if owner:
             lines.append('  application "%s"' % owner[0])
             lines.append('  endpoint_name "%s"' % owner[1])
